@@ -119,6 +119,18 @@ impl Clone for Instances { #[verifier::external_body] fn clone(&self) -> (r: Sel
 impl Clone for MatrixToInstance { #[verifier::external_body] fn clone(&self) -> (r: Self) ensures r == *self { unimplemented!() } }
 pub struct GlobalPreprocessed { pub commitment: Commitment, pub instances: Instances, pub matrix_to_instance: MatrixToInstance }
 pub struct CommonData { pub preprocessed: Option<GlobalPreprocessed>, pub lookups: Vec<Lookups> }
+/// the preprocessed width the binding declares for table i (0: no binding / no entry / no preprocessed columns)
+pub uninterp spec fn sp_declared_width(pre: Option<GlobalPreprocessed>, i: int) -> int;
+/// `common.preprocessed.as_ref().and_then(|g| g.instances.get(i)).and_then(|meta| meta.as_ref()).map_or(0, |meta| meta.width)`
+#[verifier::external_body]
+pub fn declared_width(common: &CommonData, i: usize) -> (r: usize) ensures r == sp_declared_width(common.preprocessed, i as int) { unimplemented!() }
+pub uninterp spec fn sp_prep_width<const D: usize>(air: CircuitTableAir<D>) -> int;
+impl<const D: usize> CircuitTableAir<D> {
+    #[verifier::external_body]
+    pub fn preprocessed_width(&self) -> (r: usize) ensures r == sp_prep_width(*self) { unimplemented!() }
+}
+/// the binding declares, for every rebuilt AIR, exactly the preprocessed width the AIR evaluates over
+pub open spec fn widths_ok<const D: usize>(pre: Option<GlobalPreprocessed>, airs: Seq<CircuitTableAir<D>>) -> bool { forall|i: int| 0 <= i < airs.len() ==> sp_declared_width(pre, i) == sp_prep_width(#[trigger] airs[i]) }
 impl CommonData {
     #[verifier::external_body]
     pub fn new(preprocessed: Option<GlobalPreprocessed>, lookups: Vec<Lookups>) -> (r: Self) ensures r.preprocessed == preprocessed, r.lookups == lookups { unimplemented!() }
@@ -230,6 +242,11 @@ def build():
                  min_count=1, flags_dotall=True)
     v.rewrite_re('R8', r'(p3_batch_stark::verify_batch\(.*?\))\s*\.map_err\(\|e\| BatchStarkProverError::Verify\(format!\("\{e:\?\}"\)\)\)',
                  r'(match \1 { Ok(()) => Ok(()), Err(e_) => Err(BatchStarkProverError::Verify(errmsg())) })', min_count=1, flags_dotall=True)
+    # the preprocessed-binding check (fix 069e8d7): R5 / R6 / R8 forms, each applies where the idiom occurs
+    v.rewrite_re('R5', r'for \((\w+), (\w+)\) in airs\.iter\(\)\.enumerate\(\) \{', r'for \1 in 0..airs.len() { let \2 = &airs[\1];', min_count=0)
+    v.rewrite_re('R11', r'BaseAir::<BaseVal>::preprocessed_width\((\w+)\)', r'\1.preprocessed_width()', min_count=0)
+    v.rewrite_re('R6', r'common\s*\.preprocessed\s*\.as_ref\(\)\s*\.and_then\(\|g\| g\.instances\.get\((\w+)\)\)\s*\.and_then\(\|meta\| meta\.as_ref\(\)\)\s*\.map_or\(0, \|meta\| meta\.width\)', r'declared_width(common, \1)', min_count=0)
+    v.rewrite_re('R8', r'BatchStarkProverError::Verify\(format!\(\s*"preprocessed width mismatch[^"]*"\s*\)\)', 'BatchStarkProverError::Verify(errmsg())', min_count=0, flags_dotall=True)
     unmap_iter_collect(v)
     unmap_option(v)
 
@@ -239,7 +256,20 @@ def build():
     AIRS = f'prim_airs::<D>(*proof, {RED}->Some_0) + self.dyn_airs::<D>(*proof, {N})'
     v.ensures('accepts_only_if_the_batch_verifier_accepts_the_rebuilt_airs_with_lookups_derived_from_them',
               f'''ret is Ok <==> ({RED} is Some && self.entries_ok::<D>(*proof, {N})
+                && widths_ok::<D>(common.preprocessed, {AIRS})
                 && batch_accepts::<D>(self.config, {AIRS}, proof.proof, empty3() + BatchStarkProver::dyn_pvs(*proof, {N}), common.preprocessed, lookups_of({AIRS}, self.config.zk)))''')
+    v.ensures('a_binding_that_does_not_declare_the_widths_of_the_rebuilt_airs_is_rejected', f'ret is Ok ==> widths_ok::<D>(common.preprocessed, {AIRS})')
+    WL = re.search(r'for (\w+) in 0\.\.airs\.len\(\) \{ let (\w+) = &airs\[\1\];', v.body)
+    if WL:
+        wi = WL.group(1)
+        lo_ = v._loop_open(f'for {wi} in 0..airs.len()')
+        from vf.extract import match_brace as mb_
+        cl_ = mb_(v.body, lo_)
+        v.body = v.body[:cl_ + 1] + ' proof { assert(widths_ok::<D>(common.preprocessed, airs@)); }' + v.body[cl_ + 1:]
+        v.loop(f'for {wi} in 0..airs.len()', invariants=[
+            ('ctx', f'Some(reduction) == {RED} && airs@ == prim_airs::<D>(*proof, reduction) + self.dyn_airs::<D>(*proof, {N}) && self.entries_ok::<D>(*proof, {N})'),
+            ('widths_checked_so_far', f'forall|q_w: int| 0 <= q_w < {wi} ==> sp_declared_width(common.preprocessed, q_w) == sp_prep_width(#[trigger] airs@[q_w])')])
+        v.rewrite_re('SPEC', r'(if declared != expected \{)', rf'\1 proof {{ assert(sp_declared_width(common.preprocessed, {wi} as int) != sp_prep_width(airs@[{wi} as int])); assert(!widths_ok::<D>(common.preprocessed, airs@)); }}', min_count=0)
     v.ensures('first_failing_entry_rejects', f'ret is Ok ==> {RED} is Some')
     v.at_start('let ghost ps = self.non_primitive_provers@;')
     # loop over the non-primitive entries
@@ -278,10 +308,11 @@ def build():
     # the generated lookups loop
     v.loop('for q_ in 0..airs.len()', invariants=[
         ('derived_prefix', 'v_@.len() == q_ && forall|i: int| 0 <= i < q_ ==> #[trigger] v_@[i] == sp_lookups(airs@[i], self.config.zk)'),
-    ])
+    ] + ([('widths_checked', 'widths_ok::<D>(common.preprocessed, airs@)')] if WL else []))
     v.before('let effective_common', '''proof {
             assert(lookups@ =~= lookups_of(airs@, self.config.zk)); // @@A:lookup_contexts_are_derived_from_the_rebuilt_airs_not_read_from_the_proof
             assert(airs@.len() == pvs_view(pvs@).len());
+''' + ('            assert(widths_ok::<D>(common.preprocessed, airs@));' if WL else '') + '''
         }''')
     # ---------------------------------------------------------------- prove[assemble]: which preprocessed binding the proof carries (C10 / C16)
     pv = u.extract(B, r'impl<SC> BatchStarkProver<SC>', 'prove', 'BatchStarkProver::prove[assemble]')
